@@ -62,7 +62,11 @@ def split_top(s, sep=','):
     return [x.strip() for x in out if x.strip()]
 
 
+LEFTOVER = []  # items of the extern blocks the parser could not classify (filled by parse_librs)
+
+
 def parse_librs(text):
+    del LEFTOVER[:]
     src = strip_comments(text)
     structs = []
     for m in re.finditer(r'#\[repr\(C\)\]\s*(?:#\[[^\]]*\]\s*)*pub\s+struct\s+(\w+)\s*\{(.*?)\n\}', src, flags=re.S):
@@ -122,6 +126,9 @@ def parse_librs(text):
             m = re.match(r'static (?:mut )?(\w+)\s*:\s*(.*)$', item)
             if m:
                 statics.append(dict(name=m.group(1), ty=m.group(2).replace('\x00', '->').strip()))
+                continue
+            # neither `fn` nor `static` as this parser reads them (attribute in front, `type`, ...): the caller makes the run inconclusive
+            LEFTOVER.append(item.replace('\x00', '->')[:200])
     # de-duplicate by name (the same symbol may be declared in several blocks)
     seen, ufns = {}, []
     for f in fns:
@@ -195,6 +202,18 @@ template <class T> std::string cls()
     if (std::is_class<U>::value || std::is_union<U>::value) { snprintf(b, sizeof(b), "agg:%%zu", sizeof(typename std::conditional<std::is_void<U>::value, char, U>::type)); return b; }
     return "other";
 }
+template <class T> char const *sgn()
+{
+    typedef typename std::remove_cv<T>::type U;
+    return std::is_integral<U>::value && !std::is_same<U, bool>::value ? (std::is_signed<U>::value ? "s" : "u") : "-";
+}
+static std::string hexof(void const *p, size_t n)
+{
+    std::string s;
+    char b[4];
+    for (size_t i = 0; i < n; ++i) { snprintf(b, sizeof(b), "%%02x", ((unsigned char const *)p)[i]); s += b; }
+    return s;
+}
 template <class R, class... A> void fdesc(char const *name, R (*)(A...))
 {
     std::string s;
@@ -218,7 +237,8 @@ def gen_cxx(structs_c, fn_names, static_names, headers):
     for n in fn_names:
         out.append('    fdesc("%s", &%s);' % (n, n))
     for n in static_names:
-        out.append('    printf("SV %s %%zu %%s\\n", sizeof(%s), cls<decltype(%s)>().c_str());' % (n, n, n))
+        out.append('    printf("SV %s %%zu %%s %%zu %%s %%s\\n", sizeof(%s), cls<decltype(%s)>().c_str(), alignof(decltype(%s)), sgn<decltype(%s)>(), hexof(&%s, sizeof(%s)).c_str());'
+                   % (n, n, n, n, n, n, n))
     out.append('    return 0;\n}\n')
     return '\n'.join(out)
 
@@ -233,10 +253,12 @@ pub mod verif_probe {
     use self::vstd::format;
     use self::vstd::println;
     use self::vstd::vec::Vec;
-    pub trait Cls { fn cls() -> String; }
+    pub trait Cls { fn cls() -> String; fn sgn() -> &'static str { "-" } }
     macro_rules! prim { ($($t:ty => $c:expr),*) => { $(impl Cls for $t { fn cls() -> String { format!("{}:{}", $c, core::mem::size_of::<$t>()) } })* } }
-    prim!(u8 => "int", u16 => "int", u32 => "int", u64 => "int", usize => "int", i8 => "int", i16 => "int", i32 => "int", i64 => "int", isize => "int",
-          f32 => "float", f64 => "float", bool => "bool");
+    macro_rules! primi { ($($t:ty => $s:expr),*) => { $(impl Cls for $t { fn cls() -> String { format!("int:{}", core::mem::size_of::<$t>()) } fn sgn() -> &'static str { $s } })* } }
+    primi!(u8 => "u", u16 => "u", u32 => "u", u64 => "u", usize => "u", i8 => "s", i16 => "s", i32 => "s", i64 => "s", isize => "s");
+    prim!(f32 => "float", f64 => "float", bool => "bool");
+    pub fn hexof(p: *const u8, n: usize) -> String { let mut s = String::new(); for i in 0..n { s.push_str(&format!("{:02x}", unsafe { core::ptr::read_volatile(p.add(i)) })); } s }
     impl Cls for () { fn cls() -> String { String::from("void") } }
     impl<T> Cls for *const T { fn cls() -> String { format!("ptr:{}/{}", core::mem::size_of::<*const T>(), core::mem::size_of::<T>()) } }
     impl<T> Cls for *mut T { fn cls() -> String { format!("ptr:{}/{}", core::mem::size_of::<*mut T>(), core::mem::size_of::<T>()) } }
@@ -294,7 +316,10 @@ def gen_rust(structs, fns, statics, xfer_structs, cfields, decl_only=False, real
         if not decl_only:
             o.append('        println!("AD %s {}", (vp_%s as usize) != 0);' % (f['name'], f['name']))
     for s in statics:
-        o.append('        println!("SV %s {} {}", core::mem::size_of::<%s>(), <%s as Cls>::cls());' % (s['name'], s['ty'], s['ty']))
+        # size, class, alignment, signedness of the declared Rust type; the object's bytes as the binding sees them (not in the declarations-only fallback: nothing is linked there)
+        o.append('        println!("SV %s {} {} {} {} {}", core::mem::size_of::<%s>(), <%s as Cls>::cls(), core::mem::align_of::<%s>(), <%s as Cls>::sgn(), %s);' % (
+            s['name'], s['ty'], s['ty'], s['ty'], s['ty'],
+            '"?"' if decl_only else 'hexof(unsafe { core::ptr::addr_of!(vp_%s) as *const u8 }, core::mem::size_of::<%s>())' % (s['name'], s['ty'])))
         if not decl_only:
             o.append('        println!("AD %s {}", unsafe { core::ptr::addr_of!(vp_%s) as usize } != 0);' % (s['name'], s['name']))
     o.append('    }')
@@ -705,7 +730,7 @@ def parse_tables(text):
         elif p[0] == 'FN':
             fn[p[1]] = dict(arity=int(p[2]), ret=p[4], params=p[6:])
         elif p[0] == 'SV':
-            sv[p[1]] = dict(size=int(p[2]), cls=p[3])
+            sv[p[1]] = dict(size=int(p[2]), cls=p[3], align=int(p[4]) if len(p) > 4 else None, sgn=p[5] if len(p) > 5 else None, bytes=p[6] if len(p) > 6 else None)
         elif p[0] == 'AD':
             ad[p[1]] = p[2]
         elif p[0] in ('XFER', 'XFER-BEGIN'):
@@ -751,6 +776,7 @@ def one_width(real, tag, outdir, ctx, viols, stats, samples, tier='quick', seed=
     libdir, cfgh = ctx['build_lib']('san', cfg)
     text = open(os.path.join(REPO, 'src', 'lib.rs')).read()
     structs, fns, statics = parse_librs(text)
+    stats['unparsed_extern_items'].update(LEFTOVER)
     if len(structs) < 5 or len(fns) < 40:
         raise Inc('lib.rs parser found only %d structs / %d functions' % (len(structs), len(fns)))
     for f in fns:
@@ -805,6 +831,7 @@ def one_width(real, tag, outdir, ctx, viols, stats, samples, tier='quick', seed=
     # ---- symbols in the library
     nm = sh(['nm', '--defined-only', os.path.join(libdir, 'liba.a')]).stdout
     syms = set(re.findall(r'\b[TtDdBbRrVvWw] (\w+)$', nm, flags=re.M))
+    nm_size = {m.group(2): int(m.group(1), 16) for m in re.finditer(r'^[0-9a-fA-F]+ ([0-9a-fA-F]+) [DdBbRrVvGgSsCc] (\w+)$', sh(['nm', '-S', '--defined-only', os.path.join(libdir, 'liba.a')]).stdout, flags=re.M)}
     for n in fn_names + st_names:
         stats['evaluations'] += 1
         if n not in syms:
@@ -992,6 +1019,26 @@ def one_width(real, tag, outdir, ctx, viols, stats, samples, tier='quick', seed=
         c, r_ = csv.get(n), rsv.get(n)
         if c and r_ and (c['size'] != r_['size'] or not classes_compatible(c['cls'], r_['cls'])):
             viols.append(dict(key='abi/static/%s/type' % n, config=tag, msg='C %s, lib.rs %s' % (c, r_)))
+        # foreign statics, second look (seeded C20-I: the C object widened, `static NAME: T` in lib.rs kept): the object is measured three ways -
+        # as the headers declare it (executed C++ probe: sizeof, alignof, signedness, bytes), as the archive defines it (nm -S symbol size)
+        # and as lib.rs declares it (size_of, align_of, signedness, the bytes read through the binding's own declaration).  A static that
+        # one of the sides could not measure is not passed over: it makes the run inconclusive (evidence: unmeasured_statics).
+        if not c or not r_ or None in (c['align'], c['sgn'], c['bytes'], r_['align'], r_['sgn'], r_['bytes']) or n not in nm_size or (r_['bytes'] == '?' and not decl_only_reason):
+            stats['unmeasured_statics'].add('%s/%s' % (tag, n))
+            continue
+        stats['evaluations'] += 4
+        stats['static_looks'] += 1
+        if c['align'] != r_['align']:
+            viols.append(dict(key='abi/static/%s/align' % n, config=tag, msg='C alignof %d, lib.rs align_of::<%s>() %d' % (c['align'], s['ty'], r_['align'])))
+        if nm_size[n] != r_['size']:
+            viols.append(dict(key='abi/static/%s/object-size' % n, config=tag, msg='the library defines %s with %d bytes (nm -S), lib.rs declares %s (%d bytes)' % (n, nm_size[n], s['ty'], r_['size'])))
+        if c['sgn'] != r_['sgn']:
+            viols.append(dict(key='abi/static/%s/signedness' % n, config=tag, msg='C %s (%s), lib.rs %s (%s)' % (c['cls'], c['sgn'], s['ty'], r_['sgn'])))
+        if r_['bytes'] != '?' and c['bytes'] != r_['bytes']:
+            viols.append(dict(key='abi/static/%s/value' % n, config=tag, msg='object bytes read in C %s, read through `static %s: %s` %s' % (c['bytes'], n, s['ty'], r_['bytes'])))
+        if len(samples) < 24 and n.endswith('tweak'):
+            samples.append('%s static %s: C size %d align %d %s bytes %s, archive %d bytes | lib.rs %s size %d align %d %s bytes %s' % (
+                tag, n, c['size'], c['align'], c['sgn'], c['bytes'], nm_size[n], s['ty'], r_['size'], r_['align'], r_['sgn'], r_['bytes']))
     # ---- transfers and calls
     for p in rxf:
         if p[0] != 'XFER':
@@ -1022,7 +1069,7 @@ def run(prop, tier, seed, outdir, replay, ctx):
     spec = __import__('props').PROPS[prop]
     viols, samples = [], []
     stats = dict(evaluations=0, distinct=set(), transfers=0, calls=0, structs_without_c_definition=set(), twin={}, twin_problems=[],
-                 uncovered_wrappers=set(), unexercised_wrappers=set())
+                 uncovered_wrappers=set(), unexercised_wrappers=set(), unmeasured_statics=set(), unparsed_extern_items=set(), static_looks=0)
     widths = [(8, 'f64'), (4, 'f32')]  # both real widths in both tiers: an f32-only layout change must not wait for thorough
     inconclusive = []
     # the C side of each width is compiled the way build.rs compiles it for that feature set: if build.rs stops passing
@@ -1046,12 +1093,17 @@ def run(prop, tier, seed, outdir, replay, ctx):
         inconclusive.append(str(e)[:3000])
     for pbm in stats['twin_problems']:
         inconclusive.append(pbm[:3000])
+    if stats['unmeasured_statics']:
+        inconclusive.append('foreign statics of lib.rs that were not measured on both sides (headers, archive, binding): ' + ', '.join(sorted(stats['unmeasured_statics'])))
+    if stats['unparsed_extern_items']:
+        inconclusive.append('items of the extern "C" blocks of lib.rs that are neither fn nor static as the parser reads them: ' + ' | '.join(sorted(stats['unparsed_extern_items']))[:2000])
     for v in viols:
         v.setdefault('case', 0)
         v.setdefault('log', '')
     coverage = dict(evaluations=stats['evaluations'], distinct_nontrivial=len(stats['distinct']), rule=spec['rule'], samples=samples or ['(none)'],
                     explanation=spec['level_text'],
                     structs_compared=stats.get('structs', 0), functions_compared=stats.get('functions', 0), statics_compared=stats.get('statics', 0),
+                    statics_measured_three_ways=stats['static_looks'], unmeasured_statics=sorted(stats['unmeasured_statics']), unparsed_extern_items=sorted(stats['unparsed_extern_items']),
                     cross_boundary_transfers=stats['transfers'], call_through_checks=stats['calls'],
                     rust_structs_without_c_struct=sorted(stats['structs_without_c_definition']), widths=[t for _, t in widths], exhaustive=True,
                     exhaustive_scope='every #[repr(C)] struct and every extern "C" item found in src/lib.rs; every pub fn / trait-impl fn / pub const found in src/lib.rs for the wrapper equivalence',
